@@ -17,6 +17,7 @@ pub mod c31;
 pub mod c35;
 pub mod c37;
 pub mod c04;
+pub mod c05;
 pub mod c07;
 pub mod c40;
 pub mod c41;
@@ -39,6 +40,7 @@ pub fn dispatch(id: &str, args: &[String]) -> ! {
         "C14" => c14::run(args),
         "C49" => c49::run(args),
         "C04" => c04::run(args),
+        "C05" => c05::run(args),
         "C07" => c07::run(args),
         "C40" => c40::run(args),
         "C41" => c41::run(args),
